@@ -186,9 +186,9 @@ UnitAliases = {
     ('mil',): Unit.Mil,
     ('mrad',): Unit.MRad,
     ('thousandth', 'ths'): Unit.Thousandth,
-    ('inch/100yd', 'in/100yd', 'inch/100yd', 'in/100yard, inper100yd'): Unit.InchesPer100Yd,
+    ('inch/100yd', 'in/100yd', 'inch/100yd', 'in/100yard', 'inper100yd', 'inchesper100yd'): Unit.InchesPer100Yd,
     ('centimeter/100m', 'cm/100m', 'cm/100meter', 'centimeter/100meter', 'cmper100m'): Unit.CmPer100m,
-    ('hour', 'h'): Unit.OClock,
+    ('hour', 'h', 'oclock'): Unit.OClock,
 
     ('inch', 'in'): Unit.Inch,
     ('foot', 'feet', 'ft'): Unit.Foot,
@@ -796,11 +796,11 @@ class PreferredUnits(metaclass=PreferredUnitsMeta):  # pylint: disable=too-many-
         """set preferred units from Mapping"""
         for attribute, value in kwargs.items():
 
-            if hasattr(PreferredUnits, attribute):
+            if attribute in getattr(PreferredUnits, '__dataclass_fields__'):
                 if isinstance(value, Unit):
                     setattr(PreferredUnits, attribute, value)
                 elif isinstance(value, str):
-                    if _unit := _parse_unit(value):
+                    if (_unit := _parse_unit(value)) is not None:
                         setattr(PreferredUnits, attribute, _unit)
                     else:
                         logger.warning(f"{value=} not a member of Unit")
@@ -830,7 +830,7 @@ def _parse_unit(input_: str) -> Optional[Unit]:
     input_ = input_.strip().lower()
     if not isinstance(input_, str):
         raise TypeError(f"type str expected for 'input_', got {type(input_)}")
-    if hasattr(PreferredUnits, input_):
+    if input_ in getattr(PreferredUnits, '__dataclass_fields__'):
         return getattr(PreferredUnits, input_)
     try:
         return Unit[input_]
@@ -846,7 +846,7 @@ def _parse_value(input_: Union[str, float, int],
         if isinstance(preferred, Unit):
             return preferred(float(value_))
         if isinstance(preferred, str):
-            if units_ := _parse_unit(preferred):
+            if (units_ := _parse_unit(preferred)) is not None:
                 return units_(float(value_))
         raise UnitAliasError(f"Unsupported {preferred=} unit alias")
 
@@ -863,7 +863,7 @@ def _parse_value(input_: Union[str, float, int],
 
     if match := re.match(r'(^-?(?:\d+\.\d*|\.\d+|\d+\.?))(.*$)', input_string):
         value, alias = match.groups()
-        if units := _parse_unit(alias):
+        if (units := _parse_unit(alias)) is not None:
             return units(float(value))
         raise UnitAliasError(f"Unsupported unit {alias=}")
 
